@@ -98,3 +98,23 @@ Example c02_ex_failed_children :
   snd (process_message (final (fresh 0 0 0) [OpPrep; OpMsg MStarted Received 0%Z]) MFailed Received 1%Z)
   = [ESpawn OFailed].
 Proof. vm_compute. reflexivity. Qed.
+
+(* ---------- scheduler level: the pool automaton (Model/Pool.v) ----------
+   (qualified names: Pool.v and TaskMsg.v share some identifiers) *)
+From Cylc Require Model.Pool Proofs.PoolProofs Proofs.PoolTheorems.
+
+(* In every reachable state of the pool automaton the submission log has no
+   repetition: no instance is ever submitted twice under one submit number. *)
+Theorem c02_pool_submissions_distinct : forall c tr s,
+  PoolProofs.exec c (Pool.init_state c) tr = Some s -> NoDup (Pool.subs s).
+Proof. exact PoolTheorems.submissions_distinct. Qed.
+
+(* A submission is accepted only while the instance has been submitted fewer
+   than (N+1)(M+1) times, unless it was manually triggered. *)
+Theorem c02_pool_submit_within_try_bound : forall c s t sn0 s',
+  Pool.step c s (Pool.ESubmit t sn0) = Pool.Ok s' ->
+  exists p i, Pool.find_task (Pool.pool s) t = Some p /\ Pool.find_inst (Pool.c_insts c) t = Some i /\
+    (Pool.p_manual p = true \/
+     (count_true (fun x => Pool.tid_eqb (fst x) t) (Pool.subs s) < Pool.i_tries i)%nat) /\
+    ~ In (t, sn0) (Pool.subs s).
+Proof. exact PoolTheorems.submit_within_try_bound. Qed.
